@@ -61,6 +61,9 @@ func firstCPU() string {
 
 func htons(v uint16) uint16 { return v<<8 | v>>8 }
 
+// sniffMark: the wire log creates <out>.mark once it has seen that many probes (live scans are interrupted after that)
+var sniffMark int
+
 // sniff records, until SIGTERM, the probes that arrive on iface and writes their sorted keys to path.
 func sniff(iface, proto, path string) {
 	ifi, err := net.InterfaceByName(iface)
@@ -86,11 +89,16 @@ func sniff(iface, proto, path string) {
 	var keys [][]byte
 	buf := make([]byte, 65536)
 	stopping := time.Time{}
+	marked := false
 	for {
 		select {
 		case <-stop:
 			stopping = time.Now()
 		default:
+		}
+		if !marked && sniffMark > 0 && len(keys) >= sniffMark {
+			marked = true
+			os.WriteFile(path+".mark", nil, 0o644)
 		}
 		n, from, err := syscall.Recvfrom(fd, buf, 0)
 		if err != nil {
@@ -203,7 +211,7 @@ func runE2E(sx string, c *e2eCase, idx int) {
 		}
 	}
 	frames := fmt.Sprintf("%s/frames%d.txt", tmpDir, idx)
-	sn := exec.Command("ip", "netns", "exec", ns, os.Args[0], "-sniff", "v1", "-proto", c.Proto, "-out", frames)
+	sn := exec.Command("ip", "netns", "exec", ns, os.Args[0], "-sniff", "v1", "-proto", c.Proto, "-out", frames, "-mark", fmt.Sprint(c.NWant))
 	if strings.HasPrefix(c.Proto, "listen:") {
 		// application scans: the targets are local addresses of the namespace, a listener is the log
 		for _, a := range strings.Split(c.Local, ",") {
@@ -245,6 +253,13 @@ func runE2E(sx string, c *e2eCase, idx int) {
 	go func() { done <- cmd.Run() }()
 	if c.KillMS > 0 {
 		go func() {
+			// a live scan: wait until one whole pass has been seen on the wire (at most 15 s), let it run on
+			// for KillMS, then interrupt it
+			for t := time.Now(); time.Since(t) < 15*time.Second; time.Sleep(20 * time.Millisecond) {
+				if _, err := os.Stat(frames + ".mark"); err == nil {
+					break
+				}
+			}
 			time.Sleep(time.Duration(c.KillMS) * time.Millisecond)
 			if cmd.Process != nil {
 				cmd.Process.Signal(syscall.SIGINT)
@@ -604,7 +619,7 @@ func refusedCases(r *hlib.SplitMix64, n int) []e2eCase {
 		}
 		argv := append(append([]string{"arp"}, opts[opt]...), "--live", "250ms", "--exit-delay", "100ms", "--json", "--exclude", okFile, target)
 		w := crossWant(addrs, []int{0})
-		cs = append(cs, e2eCase{Kind: "e2e", Class: "exclude-live:arp", Proto: "arp", Argv: argv, Want: w, NWant: len(w), Opt: opt, KillMS: 700,
+		cs = append(cs, e2eCase{Kind: "e2e", Class: "exclude-live:arp", Proto: "arp", Argv: argv, Want: w, NWant: len(w), Opt: opt, KillMS: 400,
 			SetSem: true, Seed: int64(len(cs))})
 	}
 	mkLive("iface")
